@@ -186,8 +186,10 @@ fn worker<C: Cell>(cell: Arc<C>, baton: Arc<Baton>, tid: usize) {
             if g.abort { drop(g); panic!("{}", ABORT_MSG); }
         }
     }));
-    let mut held: Vec<C::H> = vec![];
-    let mut junk: Vec<Box<[u8; 40]>> = vec![];
+    // pre-sized so that the vectors never allocate while the program runs (the secure-pool ABA
+    // witness depends on which freed stack node the next same-sized malloc returns)
+    let mut held: Vec<C::H> = Vec::with_capacity(64);
+    let mut junk: Vec<Box<[u8; 40]>> = Vec::with_capacity(64);
     baton.wait_turn(tid);
     loop {
         let (cmd, fin) = {
@@ -831,6 +833,10 @@ fn run_sp(cx: &mut Ctx, cache: usize, progs: &[Vec<Op>], sched: &[usize]) {
     };
     let scr = |_b: u64, _v: u64| {};
     let out = controlled_run(cell.clone(), progs, sched, &smap, &mut SharedWatch(w.clone()), &mut inspect, &scr);
+    if std::env::var("ZV_C08_DEBUG").is_ok() {
+        for (t, s, v) in &out.notes { eprintln!("note t{} site {} val {:#x}", t, s, v); }
+        eprintln!("held {:x?} exit_info {:x?} eff {}", out.held, out.exit_info, out.eff.len());
+    }
     cx.sum.dist_max("max_steps_controlled", out.eff.len() as u64);
     for (cl, d) in &out.fails {
         let class = match cl.as_deref() {
